@@ -1,4 +1,4 @@
-\* input generation: all class strings of length <= 3 (1111 states)
+\* input generation: all class strings of length <= 3 (1885 states)
 SPECIFICATION GenSpec
 CONSTANTS MaxLen = 3 MaxTokens = 0 MaxPos = 0
 INVARIANT GenTypeOK
